@@ -75,6 +75,7 @@ class SkyConfig:
     resolution: int = 50
     max_d: int = 12
     print_every: int = 1
+    cosmology: str | None = None   # None: the library default (Planck15); "closed": a curved LambdaCDM
     lo: list = field(default_factory=list)   # derived: half-steps per scale per bin
     hi: list = field(default_factory=list)
     theta_impl: int = 0
@@ -89,8 +90,33 @@ class SkyConfig:
 
     def yaw_config(self):
         yaw = data.import_yaw()
+        kw = {}
+        if self.cosmology is not None:
+            kw["cosmology"] = self.astropy_cosmology()
         return yaw.Configuration.create(rmin=list(self.rmin), rmax=list(self.rmax), unit=self.unit, edges=list(self.edges),
-                                        closed=self.closed, rweight=self.rweight, resolution=self.resolution)
+                                        closed=self.closed, rweight=self.rweight, resolution=self.resolution, **kw)
+
+    def astropy_cosmology(self):
+        import astropy.cosmology as ac
+
+        if self.cosmology is None:
+            return ac.Planck15
+        if self.cosmology == "closed":
+            return ac.LambdaCDM(H0=70.0, Om0=0.4, Ode0=1.0)
+        raise ValueError(self.cosmology)
+
+    def angle_rad(self, r: float, z: float) -> float:
+        """The angle a scale limit r (in `unit`) subtends at redshift z, from astropy directly: r / D(z) with the
+        angular diameter distance for kpc / Mpc and the comoving distance for kpc/h / Mpc/h (what the library documents)."""
+        u = self.unit
+        if u == "rad":
+            return float(r)
+        if u in ("deg", "arcmin", "arcsec"):
+            return math.radians(r / {"deg": 1.0, "arcmin": 60.0, "arcsec": 3600.0}[u])
+        cosmo = self.astropy_cosmology()
+        mpc = r / 1000.0 if u.startswith("kpc") else float(r)
+        dist = cosmo.comoving_distance(z).value if u.endswith("/h") else cosmo.angular_diameter_distance(z).value
+        return mpc / float(dist)
 
     def derive(self):
         """Lo/Hi per scale and bin (odd half-steps) from the REAL scale -> angle
@@ -103,9 +129,8 @@ class SkyConfig:
         lo = [[0] * self.nb for _ in self.rmin]
         hi = [[0] * self.nb for _ in self.rmin]
         for b, z in enumerate(mids):
-            amin, amax = cfg.scales.scales.get_angle_radian(z, cosmology=cfg.cosmology)
             for s in range(len(self.rmin)):
-                for arr, val in ((lo, amin[s]), (hi, amax[s])):
+                for arr, val in ((lo, self.angle_rad(self.rmin[s], float(z))), (hi, self.angle_rad(self.rmax[s], float(z)))):
                     h = val / half          # in half-steps; realised distances are even numbers
                     if abs(h - 2 * round(h / 2)) < 1e-6:
                         raise ValueError(f"scale {val} rad coincides with a lattice distance")
@@ -234,8 +259,15 @@ def _realise(sc, exp, workdir, emb, extra, order, wscale, perm, want, W):
     kw = dict(ra_name="ra", dec_name="dec", weight_name="w", patch_centers=cen, overwrite=True, max_workers=1)
     workdir.mkdir(parents=True, exist_ok=True)
     cref = yaw.Catalog.from_dataframe(workdir / "ref", dref, redshift_name="z", **kw)
-    cunk = yaw.Catalog.from_dataframe(workdir / "unk", dunk, **kw)
-    crnd = yaw.Catalog.from_dataframe(workdir / "rnd", dunk, **kw)
+    # when every unknown object has weight 1 the weight column may as well be absent (a weighted catalog is then
+    # counted against an unweighted one); which scenarios do so varies with the scenario
+    kwu = dict(kw)
+    if wscale == 1.0 and all(float(w) == 1.0 for w in dunk["w"]) and zlib.crc32(repr(exp["unk"]).encode()) % 2 == 0:
+        kwu.pop("weight_name")
+    cunk = yaw.Catalog.from_dataframe(workdir / "unk", dunk, **kwu)
+    crnd = yaw.Catalog.from_dataframe(workdir / "rnd", dunk, **kwu)
+    # reference randoms: a second catalog with the records of the reference sample (RD and RR must then equal DD and DR)
+    crref = yaw.Catalog.from_dataframe(workdir / "rref", dref, redshift_name="z", **kw) if "cross" in want else None
     cfg = sc.yaw_config()
     # pre-history of the tree caches: the binned catalog has served the same edges with the OTHER closed side and edges
     # that differ by a relative 2e-6 before; the measurements below must not be influenced by what is cached
@@ -256,9 +288,13 @@ def _realise(sc, exp, workdir, emb, extra, order, wscale, perm, want, W):
                             radii=[float(x) for x in cunk.get_radii().data], centers=cunk.get_centers().data.tolist())
         out["given_centers"] = cen.data.tolist()
     if "cross" in want:
-        cfs = yaw.crosscorrelate(cfg, cref, cunk, unk_rand=crnd, max_workers=W)
+        cfs = yaw.crosscorrelate(cfg, cref, cunk, ref_rand=crref, unk_rand=crnd, max_workers=W)
         out["cross"] = [cf.dd.counts.get_array().tolist() for cf in cfs]          # [scale][bin][i][j]
         out["cross_dr"] = [cf.dr.counts.get_array().tolist() for cf in cfs]
+        out["cross_rd"] = [cf.rd.counts.get_array().tolist() for cf in cfs]
+        out["cross_rr"] = [cf.rr.counts.get_array().tolist() for cf in cfs]
+        out["sw1_rd"] = cfs[0].rd.sum_weights.sum_weights1.tolist()                # reference randoms, binned like the reference
+        out["sw1_rr"] = cfs[0].rr.sum_weights.sum_weights1.tolist()
         out["sw1"] = cfs[0].dd.sum_weights.sum_weights1.tolist()                   # [bin][patch]
         out["sw2"] = cfs[0].dd.sum_weights.sum_weights2.tolist()
         out["cfs"] = cfs
